@@ -6,7 +6,8 @@ RULE = ("MC: all interleavings of 3 (thorough 4) goroutines each handling one co
         "outside/beyond the window, genuine or forged) at the code's grain Check / AEAD / Update. R: every complete "
         "interleaving of the gate-grain model (quick: a seeded sample) imposed on a real ConnectionState (Decrypt and "
         "VerifyRelay) by parking goroutines inside the AEAD call, on a 4-slot and on the production 8192-slot window; "
-        "distinct = (path, window)")
+        "every 4th schedule once more with every step started while the window's critical section is occupied by another "
+        "reader (the step must wait, not be skipped); distinct = (path, window, occupied)")
 ASSUMPTIONS = [
     "schedules are imposed at the grain pre-check / (open + update): the AEAD open has no effect on shared state, so "
     "separating it from the update adds no observable interleavings (TLC explores the fine grain as well)",
@@ -32,7 +33,7 @@ def run(ctx):
     res = ctx.gotest('.', 'TestVerif_C12', also=('dp',))
     ctx.take_mismatches(res)
     ctx.extra['drift'] = {k: v for k, v in res.get('actions', {}).items() if k.startswith('drift')}
-    ctx.require_actions('Check', 'Finish')
+    ctx.require_actions('Check', 'Finish', 'schedule:critical-section-occupied')
 
 
 META = {
